@@ -179,7 +179,7 @@ def plot_production_comparison(
         time = np.arange(len(prod_data["Days"]))
     else:
         prod_data = prod_data[["Days", "Gas", "Pressure"]]
-        time = prod_data["Days"]
+        time = np.array(prod_data["Days"])  # positions, not index labels, are what the simulation steps through
 
     pressure_fracface = np.array(prod_data["Pressure"])
     #
